@@ -43,6 +43,7 @@ func main() {
 		noEv     = flag.Bool("noevidence", false, "do not write evidence/replays (used for scratch roots)")
 		vdir     = flag.String("verif", "", "verification directory (default: directory above the binary, else /verif)")
 		listProp = flag.Bool("list", false, "list implemented properties")
+		allMode  = flag.Bool("all", false, "sweep mode: run the rules of every property on one load of -root (default configuration) and print each undischarged obligation as 'FAILKEY <property> <rule>|<key>'; writes nothing")
 	)
 	flag.Parse()
 	if *vdir != "" {
@@ -85,6 +86,9 @@ func main() {
 		*noEv = true
 		*noSelf = true
 	}
+	if *allMode {
+		os.Exit(runAll(*root))
+	}
 	def := props[*prop]
 	if def == nil {
 		fmt.Printf("CHECKER-ERROR unknown or unimplemented property %q\n", *prop)
@@ -97,6 +101,49 @@ func main() {
 		}
 	}
 	os.Exit(run(*prop, def, *tier, *root, seed, *dump, *noSelf, *noEv, wantKey))
+}
+
+// runAll is the sweep mode used by tools/mutsweep.py: one load, every property.
+func runAll(root string) int {
+	p, err := loadProg(root, defaultConfig)
+	if err != nil {
+		fmt.Println("CHECKER-ERROR", firstLine(err.Error()))
+		return 2
+	}
+	if err := closedWorld(p); err != nil {
+		fmt.Println("CHECKER-ERROR", firstLine(err.Error()))
+		return 2
+	}
+	var ids []string
+	for id := range props {
+		ids = append(ids, id)
+	}
+	sort.Strings(ids)
+	gp = p
+	for _, id := range ids {
+		func() {
+			defer func() {
+				if r := recover(); r != nil {
+					fmt.Printf("FAILKEY %s analyser-panic|%v\n", id, r)
+				}
+			}()
+			c := newChecker(p, id, "quick")
+			for _, r := range props[id].Rules {
+				r(c)
+			}
+			c.applyFloors()
+			seen := map[string]bool{}
+			for _, o := range c.Obls {
+				k := o.Rule + "|" + o.Key
+				if !o.OK && !seen[k] {
+					seen[k] = true
+					fmt.Printf("FAILKEY %s %s\n", id, k)
+				}
+			}
+		}()
+	}
+	fmt.Println("ALLDONE")
+	return 0
 }
 
 func flagSet(name string) bool {
